@@ -99,6 +99,10 @@ def _note_matcher(parts, dec, enc, single):
             return GM.strip_separators(o) == txt
         desc = txt
         empty = txt == ''
+        if txt in NULLISH and txt != '':
+            # what is left of the note reads exactly like the null token (a dot written after the pitch is all that was selected):
+            # in a plain encoding the two cannot be told apart, so whether the line counts as empty is not decided here
+            return desc, pred, None
     return (desc or '<empty>'), pred, (True if empty else False)
 
 
@@ -172,7 +176,7 @@ def rand_sel(rng):
 def one(ctx: Ctx, cs, n_triples=110):
     import kernpy as kp
     TC = kp.TokenCategory
-    doc, pname = make_doc(cs, None, p_sig=0.95)
+    doc, pname = make_doc(cs, None, p_sig=0.95, p_hidden_bar=0.3 if cs % 5 == 1 else 0.0)
     x = doc.text(0)
     ctx.ev()
     ctx.mon('documents')
